@@ -149,6 +149,15 @@ func vSummarise(name string)    {}
 func vPermute(name string)      {}
 func vCrashed() int             { return 0 }
 func vLogger() hclog.Logger     { return hclog.NewNullLogger() }
+
+// vLoggerAt: a logger at debug level (gldap then pretty-prints every packet it
+// reads and writes) or a silent one.
+func vLoggerAt(debug bool) hclog.Logger {
+	if !debug {
+		return hclog.NewNullLogger()
+	}
+	return hclog.New(&hclog.LoggerOptions{Name: "verif", Level: hclog.Debug, Output: io.Discard})
+}
 func vSkipNative() {
 	vCur.Skipped = true
 	panic(vStop{"skipped"})
